@@ -40,7 +40,7 @@ type aCase struct {
 	Antispam  bool                        `json:"antispam_enabled"`
 	Spam      spamSpec                    `json:"antispam"`
 	MetaField string                      `json:"source_name_meta_field,omitempty"`
-	SrcMode   string                      `json:"sources"` // distinct | namesakes (several ids, one name) | renamed (one id, changing names)
+	SrcMode   string                      `json:"sources"`                 // distinct | namesakes (several ids, one name) | renamed (one id, changing names)
 	Saved     map[string]map[string]int64 `json:"saved_offsets,omitempty"` // source id -> stream -> committed offset
 	Records   []aRec                      `json:"records"`
 }
@@ -319,6 +319,26 @@ func runACase(cs *aCase, col *collector, caseNo int) {
 		buf[i] = canary
 	}
 	accepted := 0
+	// bookkeeping for the evidence: antispam keys seen per source name, and
+	// keys whose latest counted record (since the last maintenance round) was
+	// refused as spam
+	keysOfName := map[string]map[string]bool{}
+	namesOfKey := map[string]map[string]bool{}
+	spamNow := map[string]bool{}
+	var keptBudget, spamRefusals, sharedRecs int
+	// explainA adds the shape of the sources to the antispam signatures
+	explainA := func(p *pending, spam bool, name string) (string, string) {
+		sig, what := p.explain("A", spam)
+		if p.cl.cls == clsCounted {
+			switch {
+			case spam && len(keysOfName[name]) > 1:
+				sig += " [another source id with the same source name is active]"
+			case len(namesOfKey[p.id]) > 1:
+				sig += " [one source id under changing source names]"
+			}
+		}
+		return sig, what
+	}
 	for i := range cs.Records {
 		rec := &cs.Records[i]
 		for k := 0; k < rec.Maint; k++ {
@@ -326,6 +346,7 @@ func runACase(cs *aCase, col *collector, caseNo int) {
 			if ref != nil {
 				ref.maintenance()
 			}
+			spamNow = map[string]bool{}
 			col.count("A maintenance rounds", 1)
 		}
 		src := aSrcPool[rec.Src]
@@ -375,6 +396,14 @@ func runACase(cs *aCase, col *collector, caseNo int) {
 				// purpose), rows refused as already committed before it
 				maySkip := (cs.Decoder == "cri" && (!ev.ok || ev.part)) || committed || otherStream
 				pend = ref.prepare(id, name, isNew, data, ev.tNs, rec.Meta, maySkip)
+				if keysOfName[name] == nil {
+					keysOfName[name] = map[string]bool{}
+				}
+				keysOfName[name][id] = true
+				if namesOfKey[id] == nil {
+					namesOfKey[id] = map[string]bool{}
+				}
+				namesOfKey[id][name] = true
 			}
 		}
 
@@ -445,7 +474,7 @@ func runACase(cs *aCase, col *collector, caseNo int) {
 			if got {
 				col.count("A undecodable-by-reference record accepted by the lenient decoder", 1)
 				if !passOK {
-					sig, what := pend.explain("A", false)
+					sig, what := explainA(pend, false, pend.name)
 					col.violate(sig, what, witness(i, nil))
 					return
 				}
@@ -467,7 +496,7 @@ func runACase(cs *aCase, col *collector, caseNo int) {
 		default:
 			col.count("A class decodable ("+sizeCls+")", 1)
 			if got && !passOK {
-				sig, what := pend.explain("A", false)
+				sig, what := explainA(pend, false, pend.name)
 				col.violate(sig, what, witness(i, nil))
 				return
 			}
@@ -478,12 +507,12 @@ func runACase(cs *aCase, col *collector, caseNo int) {
 					return
 				}
 				if pend != nil && pend.cl.cls == clsCounted {
-					sig, what := pend.explain("A", true)
+					sig, what := explainA(pend, true, pend.name)
 					col.violate(sig, what, witness(i, nil))
 					return
 				}
 				if pend != nil && pend.cl.cls == clsFree && pend.cl.why != "disabled" {
-					sig, what := pend.explain("A", true)
+					sig, what := explainA(pend, true, pend.name)
 					col.violate(sig, what, witness(i, nil))
 					return
 				}
@@ -506,6 +535,29 @@ func runACase(cs *aCase, col *collector, caseNo int) {
 				}
 				if !got {
 					col.count("A refused as spam", 1)
+					spamRefusals++
+				}
+				if pend.cl.cls == clsCounted {
+					if len(keysOfName[pend.name]) > 1 {
+						sharedRecs++
+						col.count("A counted records of a source id that shares its source name with another active id", 1)
+						if got {
+							for k := range keysOfName[pend.name] {
+								if k != pend.id && spamNow[k] {
+									keptBudget++
+									col.count("A record accepted while another source id with the same source name is banned (own budget kept)", 1)
+									break
+								}
+							}
+						}
+					}
+					if len(namesOfKey[pend.id]) > 1 {
+						col.count("A counted records of a source id seen under more than one source name", 1)
+						if !got {
+							col.count("A source id under changing names refused as spam (one budget for the id)", 1)
+						}
+					}
+					spamNow[pend.id] = !got
 				}
 			}
 			exp[i].checkEv = got
@@ -657,6 +709,10 @@ func runACase(cs *aCase, col *collector, caseNo int) {
 	for s := range shapes {
 		col.fp("A " + cs.Decoder + " " + s)
 	}
+	if cs.Antispam {
+		col.fp(fmt.Sprintf("A sources=%s keys%d T%d rules%d exc%d metafield=%v spam%s shared%s kept%s", cs.SrcMode, len(namesOfKey), cs.Spam.Threshold,
+			len(cs.Spam.Rules), len(cs.Spam.Exceptions), cs.MetaField != "", bucket(spamRefusals), bucket(sharedRecs), bucket(keptBudget)))
+	}
 }
 
 func relLen(n, max int) string {
@@ -727,6 +783,18 @@ func genACase(r *rand.Rand) *aCase {
 		cs.MetaField = "svc"
 	}
 	nsrc := 1 + r.Intn(3)
+	srcSet := []int{0, 1, 2}[:nsrc]
+	cs.SrcMode = "distinct"
+	if cs.Antispam {
+		switch k := r.Intn(100); {
+		case k < 30:
+			cs.SrcMode = "namesakes"
+			srcSet = pick(r, namesakeSets)
+			nsrc = len(srcSet)
+		case k < 42:
+			cs.SrcMode = "renamed"
+		}
+	}
 	streams := []string{""}
 	switch cs.Decoder {
 	case "json":
@@ -880,13 +948,18 @@ func genACase(r *rand.Rand) *aCase {
 	r.Shuffle(len(recs), func(i, j int) { recs[i], recs[j] = recs[j], recs[i] })
 
 	// sources, meta, offsets, maintenance rounds, new-source flags
-	hot := r.Intn(nsrc)
+	hot := srcSet[r.Intn(nsrc)]
+	suffixes := []string{"", "", ".1", "-20240301.gz"}
 	off := int64(100)
 	for i := range recs {
 		rec := &recs[i]
 		rec.Src = hot
-		if nsrc > 1 && chance(r, 35) {
-			rec.Src = r.Intn(nsrc)
+		if nsrc > 1 && (chance(r, 35) || cs.SrcMode == "namesakes") {
+			rec.Src = srcSet[r.Intn(nsrc)] // namesakes: all ids active in every round
+		}
+		rec.Name = aSrcPool[rec.Src].Name
+		if cs.SrcMode == "renamed" && rec.Src == hot {
+			rec.Name += pick(r, suffixes) // one id, changing names (rotation in place)
 		}
 		off += int64(len(rec.Data)) + 1 + int64(r.Intn(3))
 		rec.Offset = off
@@ -894,9 +967,9 @@ func genACase(r *rand.Rand) *aCase {
 			// meta is constant per antispam source id: always complete, except that
 			// with source_name_meta_field some records lack that field (and then
 			// fall back to the numeric source id, which never has it)
-			rec.Meta = map[string]string{"ns": srcPool[rec.Src].Meta["ns"]}
+			rec.Meta = map[string]string{"ns": aSrcPool[rec.Src].Meta["ns"]}
 			if cs.MetaField == "" || chance(r, 85) {
-				rec.Meta["svc"] = srcPool[rec.Src].Meta["svc"]
+				rec.Meta["svc"] = aSrcPool[rec.Src].Meta["svc"]
 			}
 		}
 		if cs.Antispam {
@@ -912,7 +985,7 @@ func genACase(r *rand.Rand) *aCase {
 	// saved offsets: some streams of some sources were committed up to a point
 	if chance(r, 30) {
 		cs.Saved = map[string]map[string]int64{}
-		for s := 0; s < nsrc; s++ {
+		for _, s := range srcSet {
 			if chance(r, 60) {
 				m := map[string]int64{}
 				names := []string{"not_set"}
@@ -928,7 +1001,7 @@ func genACase(r *rand.Rand) *aCase {
 					}
 				}
 				if len(m) > 0 {
-					cs.Saved[srcPool[s].ID] = m
+					cs.Saved[aSrcPool[s].ID] = m
 				}
 			}
 		}
